@@ -578,15 +578,19 @@ Section Conv.
         ret (enclose open close (append (nest ztab (append open_space body)) close_space))
     end.
 
+  (* convert_math_operand: the flow switches to code mode for the expression directly after a hash; that one is
+     embedded code *)
+  Definition math_operand_req (c : ctx) : req := if is_code_mode (c_mode c) then RExprEmb c else RExpr c.
+
   Definition convert_math_attach_like (kids : list bundle) (c : ctx) : M doc :=
     flow_like c kids (fun c node =>
-      if is_expr (bt node) then d <- call node (RExpr c) ;; ret (fi_tight d)
+      if is_expr (bt node) then d <- call node (math_operand_req c) ;; ret (fi_tight d)
       else if kind_eqb (bk node) KSpace then ret fi_none
       else ret (fi_tight (convert_trivia (bt node)))).
 
   Definition convert_math_frac (kids : list bundle) (c : ctx) : M doc :=
     flow_like c kids (fun c node =>
-      if is_expr (bt node) then d <- call node (RExpr c) ;; ret (fi_spaced d)
+      if is_expr (bt node) then d <- call node (math_operand_req c) ;; ret (fi_spaced d)
       else if negb (kind_eqb (bk node) KSpace) then ret (fi_spaced (convert_trivia (bt node)))
       else ret fi_none).
 
@@ -733,7 +737,7 @@ Section Conv.
   Definition convert_set_rule (kids : list bundle) (c : ctx) : M doc :=
     flow_like c kids (fun c child =>
       if is_expr (bt child) then d <- call child (RExpr c) ;; ret (fi_spaced d)
-      else if kind_eqb (bk child) KArgs then d <- call child (RParenArgs c) ;; ret (fi_tight_spaced d)
+      else if kind_eqb (bk child) KArgs then d <- call child (RArgs c) ;; ret (fi_tight_spaced d)
       else ret fi_none).
 
   Definition convert_show_rule (kids : list bundle) (c : ctx) : M doc :=
